@@ -41,7 +41,7 @@ func runC19(a *Args) error {
 	prelude := "From NV Require Import Base C19_Model.\nOpen Scope N_scope.\n"
 	w := NewCaseWriter(a, "C19", prelude, "case", "run")
 	w.ShardSize = 400
-	w.Rule = "one case = one history on a fresh OCI layout (oci.Store in a temp dir, Repository from registry.NewRepository over a Fetch-logging wrapper of that store; the layout is re-opened with registry.NewOCIRepository at the end): up to 12 PushSignature calls over up to 3 subject artifacts and their one-field variants (size+1, other media type, other digest), envelopes of both media types (distinct random content, 0 B .. 1 MiB; some re-pushed), caller annotations (none, thumbprint, user keys, valid / invalid created), interleaved with foreign referrers pushed through oras (other artifact types, artifactType field vs config type, legacy artifact manifests with and without subject, indexes and docker manifests with subject, manifests reaching the subject only through a layer, the config or (legacy) the blobs while naming a subject that differs in one field or none), hostile signature manifests (0 / 2 layers, declared blob sizes above the cap, negative or off by one, missing blobs, a manifest really above 4 MiB, a blob really above 32 MiB, JSON of the wrong shape, manifest JSON stored under a non-manifest media type), listings of every subject and variant and fetches of every listed manifest plus tampered descriptors (size +1, -1, above the cap, media type swapped, unknown digest, an envelope or the subject as manifest). The first 224 histories of every run are scripted, systematic families (scripted.go, squat.go): relist (one long-lived Repository; the same listing / fetch asked again while the expected answer changes: empty -> 1 -> 2 items, pass -> refused -> pass for one digest under tampered descriptors, a subject and its one-field variants including size 0 and empty media type), position (three signatures and ONE odd content of every foreign / hostile kind before, between and after them; the valid blob at every position of 2- and 3-layer manifests), empties (annotations nil / {} / empty value / empty key, empty envelope, empty media type, manifest members absent / null / {} / [], zero descriptors as query, subject and fetch target), syntax (duplicate JSON members, keys in another letter case, numbers as strings / floats / exponents, non-string annotation values, white space, null / array / string documents, trailing garbage, media and artifact types differing in case, surrounding space or parameters, upper-case digests), many (twelve signatures of one subject), squat (the bytes of the manifest a PushSignature is going to make - predicted by the same call on a twin layout, with a caller-supplied creation time - or of its envelope, or of the empty config, are in the layout before the call, stored through oras under a blob media type, the legacy manifest type or the image manifest type: the manifest push meets ErrAlreadyExists, which PackManifest ignores; histogram content_kinds squat:push-reported-success-manifest-not-listed counts the histories in which the real PushSignature reported success and ListSignatures of its subject does not contain its manifest - theorem C19_pushed_but_not_listed_refuted). non-trivial = at least two successful pushes, at least one foreign or hostile content and a non-empty listing; distinct = distinct operation sequences after interning"
+	w.Rule = "one case = one history on a fresh OCI layout (oci.Store in a temp dir, Repository from registry.NewRepository over a Fetch-logging wrapper of that store; the layout is re-opened with registry.NewOCIRepository at the end): up to 12 PushSignature calls over up to 3 subject artifacts and their one-field variants (size+1, other media type, other digest), envelopes of both media types (distinct random content, 0 B .. 1 MiB; some re-pushed), caller annotations (none, thumbprint, user keys, valid / invalid created), interleaved with foreign referrers pushed through oras (other artifact types, artifactType field vs config type, legacy artifact manifests with and without subject, indexes and docker manifests with subject, manifests reaching the subject only through a layer, the config or (legacy) the blobs while naming a subject that differs in one field or none), hostile signature manifests (0 / 2 layers, declared blob sizes above the cap, negative or off by one, missing blobs, a manifest really above 4 MiB, a blob really above 32 MiB, JSON of the wrong shape, manifest JSON stored under a non-manifest media type), listings of every subject and variant and fetches of every listed manifest plus tampered descriptors (size +1, -1, above the cap, media type swapped, unknown digest, an envelope or the subject as manifest). The first 294 histories of every run are scripted, systematic families (scripted.go, squat.go, layers.go): relist (one long-lived Repository; the same listing / fetch asked again while the expected answer changes: empty -> 1 -> 2 items, pass -> refused -> pass for one digest under tampered descriptors, a subject and its one-field variants including size 0 and empty media type), position (three signatures and ONE odd content of every foreign / hostile kind before, between and after them; the valid blob at every position of 2- and 3-layer manifests), empties (annotations nil / {} / empty value / empty key, empty envelope, empty media type, manifest members absent / null / {} / [], zero descriptors as query, subject and fetch target), syntax (duplicate JSON members, keys in another letter case, numbers as strings / floats / exponents, non-string annotation values, white space, null / array / string documents, trailing garbage, media and artifact types differing in case, surrounding space or parameters, upper-case digests), many (twelve signatures of one subject), squat (the bytes of the manifest a PushSignature is going to make - predicted by the same call on a twin layout, with a caller-supplied creation time - or of its envelope, or of the empty config, are in the layout before the call, stored through oras under a blob media type, the legacy manifest type or the image manifest type: the manifest push meets ErrAlreadyExists, which PackManifest ignores; histogram content_kinds squat:push-reported-success-manifest-not-listed counts the histories in which the real PushSignature reported success and ListSignatures of its subject does not contain its manifest - theorem C19_pushed_but_not_listed_refuted), layers (notation manifests, image and legacy, with 0 / 2 / 3 layers or blobs: the genuine envelope at every position, the other layers under every media type of {application/vnd.oci.empty.v1+json with content {}, jose, cose, octet-stream, empty string}; the 1-layer manifest whose layer is the empty descriptor; each listed and fetched: anything but exactly one layer is refused with only the manifest fetched). non-trivial = at least two successful pushes, at least one foreign or hostile content and a non-empty listing; distinct = distinct operation sequences after interning"
 	w.Assumptions = []string{
 		"sha256 is injective on the contents of a history (digest numbers stand for byte strings; fetched bytes are identified by their sha256)",
 		"the artifact manifest struct of registry/internal/artifactspec is mirrored field by field in the harness (same JSON tags) to ask encoding/json how a content reads as an artifact manifest",
